@@ -265,9 +265,11 @@ impl Iterator for TimeSeries {
     #[inline]
     fn next(&mut self) -> Option<Epoch> {
         let next_offset = self.cur * self.step;
-        if (!self.incl && next_offset >= self.duration)
-            || (self.incl && next_offset > self.duration)
-        {
+        // `cur * step` saturates at Duration::MAX, so compare the exact product with the span:
+        // otherwise an inclusive series over a span of exactly Duration::MAX never terminates.
+        let exact_offset = i128::from(self.cur).saturating_mul(self.step.total_nanoseconds());
+        let span = self.duration.total_nanoseconds();
+        if (!self.incl && exact_offset >= span) || (self.incl && exact_offset > span) {
             None
         } else {
             self.cur += 1;
